@@ -106,9 +106,15 @@ def _alarm(*_):
 SHAPE = ['dict']
 
 
+#   'numpy' : {'t': array([tv, k]), 'a': [k, {'b': array([nv])}]}  - the mutable
+#             fields are numeric numpy arrays written IN PLACE (arr[0] = ...), what a
+#             store that keeps zero-copy buffers must not let through
 def example(k, tv=0, nv=0):
     if SHAPE[0] == 'tuple':
         return ([tv], [k, {'b': nv}])
+    if SHAPE[0] == 'numpy':
+        import numpy as np
+        return {'t': np.array([tv, k], dtype=np.int64), 'a': [k, {'b': np.array([nv], dtype=np.int64)}]}
     return {'t': tv, 'a': [k, {'b': nv}]}
 
 
@@ -124,6 +130,14 @@ def content(x, k):
     (-1, -1) for anything else."""
     try:
         top, nest = _parts(x)
+        if SHAPE[0] == 'numpy':
+            import numpy as np
+            t, b = x['t'], x['a'][1]['b']
+            ok = (isinstance(x, dict) and set(x) == {'t', 'a'} and isinstance(t, np.ndarray)
+                  and t.shape == (2,) and int(t[1]) == k and isinstance(x['a'], list)
+                  and len(x['a']) == 2 and x['a'][0] == k and set(x['a'][1]) == {'b'}
+                  and isinstance(b, np.ndarray) and b.shape == (1,))
+            return (int(t[0]), int(b[0])) if ok else (-1, -1)
         tv = top[0] if isinstance(x, tuple) else top['t']
         nv = nest[1]['b']
         if type(tv) is int and type(nv) is int and x == example(k, tv, nv):
@@ -136,12 +150,21 @@ def content(x, k):
 def _same_top(x, y):
     if isinstance(x, tuple) and isinstance(y, tuple):
         return x[0] is y[0]          # (equal tuples may be one object: look inside)
+    if SHAPE[0] == 'numpy' and x is not y:
+        try:
+            import numpy as np
+            return bool(np.shares_memory(x['t'], y['t']))
+        except Exception:
+            return False
     return x is y
 
 
 def _same_nested(x, y):
     try:
         a, b = _parts(x)[1], _parts(y)[1]
+        if SHAPE[0] == 'numpy' and not (a is b or a[1] is b[1]):
+            import numpy as np
+            return bool(np.shares_memory(a[1]['b'], b[1]['b']))
         return a is b or a[1] is b[1]
     except Exception:
         return False
@@ -208,6 +231,12 @@ def access(ds, path, k):
 
 def _mutate(x, lvl, stamp):
     top, nest = _parts(x)
+    if SHAPE[0] == 'numpy':          # in-place writes into the arrays
+        if lvl == 'top':
+            x['t'][0] = stamp
+        else:
+            x['a'][1]['b'][0] = stamp
+        return
     if lvl == 'top':
         if isinstance(x, tuple):
             top[0] = stamp
@@ -235,7 +264,7 @@ def execute(par, hist, timeout=30.0):
         with warnings.catch_warnings():
             warnings.simplefilter('ignore')
             import zlib
-            SHAPE[0] = 'tuple' if zlib.crc32(json.dumps(hist, sort_keys=True).encode()) % 2 else 'dict'
+            SHAPE[0] = ('dict', 'tuple', 'numpy')[zlib.crc32(json.dumps(hist, sort_keys=True).encode()) % 3]
             exs = [example(j) for j in range(n)]
             container = {KEYS[j]: exs[j] for j in range(n)} if par['src'] == 'dict' else list(exs)
             ckey = (lambda k: KEYS[k - 1]) if par['src'] == 'dict' else (lambda k: k - 1)
